@@ -4,7 +4,7 @@
 EXTENDS CDS, Lift, Json, IOUtils, TLC
 Trace == ndJsonDeserialize(IOEnv.TRACE_FILE)
 Ok(b, name) == IF b THEN "ok" ELSE name
-Soft == {"ok", "chunk-codons:single-exon-offset", "aggregate-identifier:from-chunk-location",
+Soft == {"ok", "chunk:utr-accessors-on-cut-transcript", "chunk-codons:single-exon-offset", "aggregate-identifier:from-chunk-location",
          "chunk:from-chunk-relative-location-refuses-touching-blocks"}
 FirstBad(seq) == IF \E i \in DOMAIN seq : seq[i] \notin Soft
                  THEN seq[CHOOSE i \in DOMAIN seq : seq[i] \notin Soft /\ \A j \in 1..(i - 1) : seq[j] \in Soft]
@@ -54,6 +54,19 @@ VTwin(ev) ==
          Ok(IsVal(sz) /\ sz[2][1] = Len(Bases(ex)) /\ sz[2][2] = Len(inside)
             /\ (Len(sz[2]) = 2 \/ (sz[2][3] = Len(cb)
                                    /\ sz[2][4] = Len(SelectSeq(cb, LAMBDA p : ws <= p /\ p < we)))), "sizes"),
+    \* optional field 24 = <<5' UTR, 3' UTR>> of a coding transcript built on the chunk, as bases 5'->3' on the chromosome:
+    \* the transcript's bases before / after its CDS that lie on the chunk.  Claimed where the chunk holds the whole
+    \* transcript; where the chunk CUTS the transcript the accessors index the chunk-relative location with
+    \* whole-transcript positions (keyed known finding) and any answer other than the restriction is filed there
+    IF Len(ev) < 24 \/ ~coding THEN "ok"
+    ELSE LET txb == Bases(ex) cb == Bases(cdsl)
+             k == (CHOOSE i \in DOMAIN txb : txb[i] = cb[1]) - 1
+             j == CHOOSE i \in DOMAIN txb : txb[i] = cb[Len(cb)]
+             inw(sq) == SelectSeq(sq, LAMBDA p : ws <= p /\ p < we)
+             want5 == inw(SubSeq(txb, 1, k)) want3 == inw(SubSeq(txb, j + 1, Len(txb)))
+             good == IsVal(ev[24][1]) /\ ev[24][1][2] = want5 /\ IsVal(ev[24][2]) /\ ev[24][2][2] = want3 IN
+         IF SelfOverlap(ex) \/ good THEN "ok"
+         ELSE IF inside = txb THEN "utr-on-chunk" ELSE "chunk:utr-accessors-on-cut-transcript",
     IF ~coding THEN "ok" ELSE
     LET cds == <<cdsl, fr>> n == NumCodons(cds) want == WindowCodons(cds, ws, we)
         allb == Bases(cdsl) insb == SelectSeq(allb, LAMBDA p : ws <= p /\ p < we)
